@@ -297,7 +297,7 @@ def examine(case, path, pq=None, ctx=None):
     from fastparquet import ParquetFile
     ro, pn = case["ropts"], case["pn"]
     fails = []
-    base = {"source": case["source"], "pandas_nulls": pn, "categories": type(ro["categories"]).__name__, "strip": (case.get("strip") or {}).get("mode"),
+    base = {"source": case["source"], "file": case.get("rel"), "pandas_nulls": pn, "categories": type(ro["categories"]).__name__, "strip": (case.get("strip") or {}).get("mode"),
             "index_opt": "none" if ro["index"] is None else ("false" if ro["index"] is False else ("list" if isinstance(ro["index"], list) else "name")),
             "dtypes_override": bool(ro["dtypes"]), "columns_opt": ro["columns"] is not None}
 
